@@ -405,3 +405,80 @@ func (t *thrModel) startsWithSetupOnce(root *ssa.Function) (bool, string) {
 	}
 	return false, "the entry block does not call setupOnce.Do(s.setup)"
 }
+
+
+// instanceSizeMatchesFilter: for every rbcFilter registered, the size handed
+// to the RBC factory equals the number of admitted participants: either
+// len(X) with the allowed list built from the same X, or the very value used
+// as expected member count of the Synchronize whose continuation delivers the
+// list (exact size by C07). Returns "" if so.
+func (t *thrModel) instanceSizeMatchesFilter() string {
+	n := 0
+	for _, mu := range mapUpdatesOfField(t.fns, t.fRBCTab) {
+		recv, _, ok := boundMethod(mu.Value)
+		if !ok {
+			return "a registered handler is not a bound method"
+		}
+		alloc, isA := strip(recv).(*ssa.Alloc)
+		if !isA {
+			return "a registered handler's receiver is not a local filter literal"
+		}
+		h, ok := structLitFieldValue(alloc, t.fFilterH)
+		if !ok {
+			return "filter without inner handler"
+		}
+		r2, _, ok2 := boundMethod(h)
+		if !ok2 {
+			return "inner handler is not a bound method"
+		}
+		cl, isC := strip(r2).(*ssa.Call)
+		if !isC || !callsFuncField(&cl.Call, t.fRBF) || len(cl.Call.Args) != 3 {
+			return "inner handler not obtained from Scheme.RBF"
+		}
+		size := strip(cl.Call.Args[2])
+		al, ok := structLitFieldValue(alloc, t.fFilterAllowed)
+		if !ok {
+			return "filter without allowed list"
+		}
+		matched := false
+		// (a) size = len(X), allowedList = f(X)
+		if x, isLen := lenOperand(size); isLen {
+			if alc, isCall := strip(al).(*ssa.Call); isCall && len(alc.Call.Args) == 1 && sameValue(alc.Call.Args[0], x) {
+				matched = true
+			}
+		}
+		// (b) size is the expected-count argument of the Synchronize delivering the member list
+		if !matched {
+			for f, ci := range t.conts {
+				if len(f.Params) == 0 {
+					continue
+				}
+				sl := t.sl.Slice(al)
+				if !sl[f.Params[0]] {
+					continue
+				}
+				args := ci.Common().Args
+				if len(args) >= 4 && sameCellOrValue(args[3], size) {
+					matched = true
+				}
+			}
+		}
+		if !matched {
+			return "the size given to the RBC factory at " + t.m.Pos(cl.Pos()) + " is not tied to the number of admitted participants"
+		}
+		n++
+	}
+	if n == 0 {
+		return "no registered filter found"
+	}
+	return ""
+}
+
+// sameCellOrValue: equal SSA values, or loads of the same captured variable.
+func sameCellOrValue(a, b ssa.Value) bool {
+	a, b = strip(a), strip(b)
+	if a == b {
+		return true
+	}
+	return sameObject(a, b)
+}
